@@ -213,6 +213,18 @@ def run_property(pid, tier, seed, jobs=None, write_baseline=False, only_units=No
                     rp, has_input = _write_replay(pid, o, conc)
                     violations.append((o, rp, has_input))
 
+    # ---- thorough tier: engine self-test by mutation + CPython differential cross-check (DESIGN section 6.3 / 6.4) ----
+    self_test = None
+    cross_check = None
+    if tier == "thorough" and not only_units and os.environ.get("VERIF_NO_SELFTEST") != "1":
+        self_test = _self_test(pid)
+        cross_check = _cross_check(pid, results, seed)
+        for f in cross_check.get("failures", []):
+            o = dict(name=f"{f['function']}/cross-check", path="", status="refuted", backend="harness",
+                     detail="differential cross-check on the unchanged tree found a concrete contract violation", witness=None, unit="cross-check")
+            rp, has_input = _write_replay(pid, o, f)
+            violations.append((o, rp, has_input))
+
     # ---- evidence -------------------------------------------------------------------------
     wall = time.time() - t0
     by_backend = {}
@@ -264,6 +276,7 @@ def run_property(pid, tier, seed, jobs=None, write_baseline=False, only_units=No
             notes=notes[:60],
             samples=samples or [dict(obligation=o["name"], status=o["status"]) for o in obls[:5]],
             solver_seconds=round(sum(o["seconds"] for o in obls), 2),
+            self_test=self_test, cross_check={k: v for k, v in (cross_check or {}).items() if k != "failures"} or None,
             unit_seconds={k[1]: round(r["seconds"], 2) for k, r in sorted(results.items())},
         ),
         assumptions=assumptions,
@@ -288,6 +301,9 @@ def run_property(pid, tier, seed, jobs=None, write_baseline=False, only_units=No
             print(f"  failed obligation: {o['name']} [{o['path'][:120]}] {o['status']} ({o['backend']}): {o['detail'][:200]}")
             print(f"VIOLATION property={pid} replay={rp}" + ("" if has_input else " no-failing-input-found"))
         return 1
+    if self_test and self_test.get("survivors"):
+        print(f"CHECKER-FAILURE property={pid}: seeded defects not detected by the self-test: {self_test['survivors']}")
+        return 3
     if crashed:
         for k, tb in crashed:
             print(f"unit {k[1]} crashed:\n{tb}")
@@ -303,6 +319,52 @@ def run_property(pid, tier, seed, jobs=None, write_baseline=False, only_units=No
         print(f"UNDECIDED property={pid}")
         return 2
     return 0
+
+
+def _self_test(pid):
+    """engine self-test by mutation: every seeded defect of this property (seeded/<id>_k/patch.diff) is applied to a scratch copy
+    of the package outside /repo and /verif (removed afterwards) and this property's quick check must report a violation"""
+    import shutil
+    import tempfile
+    from concurrent.futures import ThreadPoolExecutor
+    sd = os.path.join(HERE, "seeded")
+    ids = sorted(d for d in (os.listdir(sd) if os.path.isdir(sd) else []) if d.startswith(pid + "_"))
+
+    def one(sid):
+        tmp = tempfile.mkdtemp(prefix=f"selftest-{sid}-")
+        try:
+            shutil.copytree(os.path.join(REPO, "py_ecc"), os.path.join(tmp, "py_ecc"))
+            r = subprocess.run(["patch", "-p1", "-s", "-d", tmp, "-i", os.path.join(sd, sid, "patch.diff")], capture_output=True, text=True)
+            if r.returncode:
+                return sid, "patch-does-not-apply"
+            env = dict(os.environ, PY_ECC_REPO=tmp, VERIF_EVIDENCE_DIR=os.path.join(tmp, "ev"), VERIF_REPLAY_DIR=os.path.join(tmp, "rp"),
+                       VERIF_NO_SELFTEST="1", VERIF_TIER="quick")
+            pr = subprocess.run([os.path.join(HERE, "check"), pid, "--tier", "quick", "--jobs", "4"], cwd=HERE, capture_output=True, text=True, env=env)
+            return sid, pr.returncode
+        finally:
+            shutil.rmtree(tmp, ignore_errors=True)
+    out = {}
+    with ThreadPoolExecutor(max_workers=4) as ex:
+        for sid, rc in ex.map(one, ids):
+            out[sid] = rc
+    return dict(mutants=len(ids), killed=sum(1 for v in out.values() if v == 1),
+                survivors=sorted(k for k, v in out.items() if v not in (1, "patch-does-not-apply")),
+                not_applicable=sorted(k for k, v in out.items() if v == "patch-does-not-apply"))
+
+
+def _cross_check(pid, results, seed):
+    """CPython differential cross-check: every function under contract of this property is run on the concrete family of its
+    contract on the unchanged tree (a second seed); no contract violation may be found"""
+    fns = sorted({q for r in results.values() for q in r["functions"]})
+    tried, failures, nofam = 0, [], 0
+    for fnq in fns:
+        ans = harness(["refute", "--seed", str(seed + 1000)], stdin=json.dumps(dict(function=fnq, property=pid)), timeout=900)
+        if ans.get("found"):
+            failures.append(ans)
+        elif "no concrete family" in str(ans.get("reason", "")):
+            nofam += 1
+        tried += int(ans.get("tried", 0) or 0)
+    return dict(functions=len(fns), without_family=nofam, executions=tried, mismatches=len(failures), failures=failures)
 
 
 def _concretise(pid, o, results, seed):
